@@ -43,7 +43,9 @@ ASSUMPTIONS = [
 CASE_LIMIT_S = 60
 SHEETS = ['Sheet1', 'Data', 'My Sheet', "It's", 'Q-1', u'Blätter', '2024']
 TEXTS = ['abc', 'hello world', u'héllo', 'a&b<c>', '"quoted"', "it's",
-         ' padded ', 'x', 'TRUE', '123', u'日本', 'line1\nline2']
+         ' padded ', 'x', 'TRUE', '123', u'日本', 'line1\nline2',
+         # TEXT that looks like a formula: stored as text, it stays text
+         '=A1*21', '=not a formula', '=']
 CODES = ['#N/A', '#DIV/0!', '#VALUE!', '#REF!', '#NAME?', '#NUM!', '#NULL!']
 TMP = [None]
 
